@@ -48,6 +48,17 @@ type seqpairdist struct {
 	weights    []float64
 }
 
+// gammaPow is math.Pow for the gamma corrected estimators. A negative base means
+// that the pair of sequences is saturated: like math.Log in the uncorrected
+// formulas it then gives NaN (math.Pow alone returns a finite value when the
+// exponent -1/alpha happens to be an integer, which produced bogus distances).
+func gammaPow(x, y float64) float64 {
+	if x < 0 {
+		return math.NaN()
+	}
+	return math.Pow(x, y)
+}
+
 func init2DFloat(dim1, dim2 int) [][]float64 {
 	out := make([][]float64, dim1)
 	for d := 0; d < dim1; d++ {
